@@ -155,3 +155,41 @@ func init() {
 		}},
 	}
 }
+
+func init() {
+	properties["C08"] = &propSpec{ID: "C08",
+		Quick:    tierSpec{Harnesses: []harnessSpec{{Func: gp + "internal/zzverif.VC08", Discover: 3, Reach: []string{"c08.accepted"}}}},
+		Thorough: tierSpec{Harnesses: []harnessSpec{{Func: gp + "internal/zzverif.VC08", Discover: 3, Reach: []string{"c08.accepted"}}}},
+	}
+	properties["C09"] = &propSpec{ID: "C09",
+		Quick:    tierSpec{Harnesses: []harnessSpec{{Func: gp + "internal/zzverif.VC09", Discover: 2, Reach: []string{"c09.accepted"}}}},
+		Thorough: tierSpec{Harnesses: []harnessSpec{{Func: gp + "internal/zzverif.VC09", Discover: 2, Reach: []string{"c09.accepted"}}}},
+	}
+}
+
+func init() {
+	properties["C14"] = &propSpec{ID: "C14",
+		Quick: tierSpec{Harnesses: []harnessSpec{
+			{Func: gp + "internal/zzverif.VC14", Discover: 2, Reach: []string{"c14.accepted"}},
+			{Func: gp + "internal/zzverif.VC14Sym", Discover: 3, Digits: 3, Reach: []string{"c14s.accepted"}},
+		}},
+		Thorough: tierSpec{Harnesses: []harnessSpec{
+			{Func: gp + "internal/zzverif.VC14", Discover: 2, Params: map[string]int{"allregs": 1}, Reach: []string{"c14.accepted"}},
+			{Func: gp + "internal/zzverif.VC14Sym", Discover: 3, Digits: 3, Params: map[string]int{"allregs": 1}, Reach: []string{"c14s.accepted"}},
+		}},
+	}
+}
+
+func init() {
+	properties["C16"] = &propSpec{ID: "C16",
+		Quick:    tierSpec{Harnesses: []harnessSpec{{Func: gp + "internal/zzverif.VC16", Discover: 2, Digits: 5, Reach: []string{"c16.accepted"}}}},
+		Thorough: tierSpec{Harnesses: []harnessSpec{{Func: gp + "internal/zzverif.VC16", Discover: 2, Digits: 5, Reach: []string{"c16.accepted"}}}},
+	}
+}
+
+func init() {
+	properties["C17"] = &propSpec{ID: "C17",
+		Quick:    tierSpec{Harnesses: []harnessSpec{{Func: gp + "internal/zzverif.VC17", Discover: 3, Digits: 5, Reach: []string{"c17.accepted"}}}},
+		Thorough: tierSpec{Harnesses: []harnessSpec{{Func: gp + "internal/zzverif.VC17", Discover: 3, Digits: 5, Reach: []string{"c17.accepted"}}}},
+	}
+}
